@@ -448,7 +448,7 @@ def replay_restart(payload):
 # ------------------------------------------------------------------ batch / evidence
 TIERS = {
     "quick": {"runs": 8000, "chunk": 50, "wall_cap": 900, "restart_frac": 0.3, "hashseeds": [1]},
-    "thorough": {"runs": 40000, "chunk": 100, "wall_cap": 3400, "restart_frac": 0.5, "hashseeds": [1, 4242]},
+    "thorough": {"runs": 150000, "chunk": 200, "wall_cap": 5400, "restart_frac": 0.5, "hashseeds": [1, 4242]},
 }
 
 
@@ -464,7 +464,8 @@ def batch(task):
             agg["harness"].append({"run": run, "why": repr(e)[:200]})
             continue
         fold(agg, res, program)
-        if len(agg["violations"]) >= 12:
+        runner.note_violations(len(res["violations"]))
+        if len(agg["violations"]) >= 12 or runner.stop_requested():
             break
     k = max(1, int((hi - lo) * tier["restart_frac"]))
     sub = list(range(lo, hi))[:k]
